@@ -9,6 +9,7 @@ mkdir -p evidence replays
 (cd harness && cargo build --release --no-default-features --target-dir target-min --offline) || exit 1
 (cd harness && cargo build --release --no-default-features --features builtin --target-dir target-k256dbg --offline) || exit 1
 (cd harness && cargo build --profile plain --features plainprofile --target-dir target-plain-all --offline) || exit 1
+(cd noserde && cargo build --release --offline) || exit 1
 # thorough tier only; a failure here is not fatal (the fuzz stage then reports itself unavailable)
 (cd harness && cargo +nightly fuzz build --fuzz-dir "$(pwd)/../fuzz" >/dev/null 2>&1) || echo "note: fuzz targets not built (thorough tier will skip the libFuzzer stage)"
 exit 0
